@@ -55,10 +55,27 @@ def units(step, lo, hi):
     return None
 
 
-def ticks_record(d0, d1, m):
+def ticks_record(d0, d1, m, pre=None):
     rec = {"kind": "ticks", "m": m, "err": "", "dom": [repr(d0), repr(d1)]}
     try:
         s = LinearScale().domain([d0, d1])
+        if pre:
+            # the ticks of a scale are those of the domain it reports NOW, whatever was called before
+            for call in pre:
+                if call == "ticks":
+                    list(s.ticks(m))
+                elif call == "format":
+                    s.tickFormat(m)
+                elif call == "nice":
+                    s.nice(m)
+                elif call == "copy":
+                    s = s.copy()
+                elif call == "redomain":
+                    s.domain([d0 - 1.0, d1 + 3.0])
+                    s.domain([d0, d1])
+            d0, d1 = [float(x) for x in s.domain()]
+            rec["dom"] = [repr(d0), repr(d1)]
+            rec["pre"] = list(pre)
         ticks = [float(t) for t in s.ticks(m)]
         fmt = s.tickFormat(m)
         labels = [fmt(t) for t in ticks]
@@ -248,6 +265,13 @@ def main():
                 if r is None:
                     disc += 1
                 else:
+                    r["m"] = mm
+                    recs.append(r)
+            if rng.random() < 0.4:
+                pre = rng.choice([["ticks", "nice"], ["nice"], ["ticks", "format", "nice"], ["copy", "nice"], ["ticks", "redomain"],
+                                  ["ticks", "nice", "copy"]])
+                r = ticks_record(d0, d1, m, pre=pre)
+                if r is not None:
                     r["m"] = mm
                     recs.append(r)
     elif mode == "map":
